@@ -494,7 +494,7 @@ func replayC13(r *fw.Run, raw json.RawMessage) {
 func init() {
 	fw.Register(&fw.Engine{
 		ID: "C13", Level: "exploration",
-		Rule: "a case = a history on one Service object: identity strings (empty, controls incl. NUL, <&>, U+2028, non-BMP, generated hostile strings) and a sequence of 3..12 (thorough 40) operations over {register(name, description text), start serving (Listen or Bind+DoListen; unix, abstract, TCP), shutdown + wait, serve again}; names collide on purpose (duplicates, org.varlink.service itself, near-misses), descriptions are arbitrary Unicode incl. empty, CRLF, backticks, 1 MiB. After every operation performed while serving, a real client observes and the result is compared with a 20-line model (names in registration order, descriptions, serving flag): RegisterInterface refused exactly when duplicate or serving and then leaves everything unchanged; Connection.GetInfo field for field (also with nil out-pointers); GetInterfaceDescription(n) byte for byte for every listed n and InvalidParameter(interface) for 7 near-misses of every name; Resolver.GetInfo / Resolve against a dispatcher registered as org.varlink.resolver that answers from the same model, Resolve(org.varlink.resolver) answered locally without a call. Register-while-serving is issued only after a completed round trip. distinct by hash of the history.",
+		Rule: "a case = a history on one Service object: identity strings (empty, controls incl. NUL, <&>, U+2028, non-BMP, generated hostile strings) and a sequence of 3..12 (thorough 40) operations over {register(name, description text), start serving (Listen or Bind+DoListen; unix, abstract, TCP), shutdown + wait, serve again}; names collide on purpose (duplicates, org.varlink.service itself, near-misses), descriptions are arbitrary Unicode incl. empty, CRLF, backticks, 1 MiB. After every operation performed while serving, a real client observes and the result is compared with a 20-line model (names in registration order, descriptions, serving flag): RegisterInterface refused exactly when duplicate or serving and then leaves everything unchanged; Connection.GetInfo field for field (also with nil out-pointers); GetInterfaceDescription(n) byte for byte for every listed n and InvalidParameter(interface) for 7 near-misses of every name; Resolver.GetInfo / Resolve against a dispatcher registered as org.varlink.resolver that answers from the same model, Resolve(org.varlink.resolver) answered locally without a call. Register-while-serving is issued only after a completed round trip. distinct by hash of the history. A quarter of the serve periods run with a 60 ms idle timeout and end by ServiceTimeoutError once the harness closes its keep-alive connection; the out-variables passed to GetInfo hold stale values.",
 		Assumptions: []string{"interface names are non-empty (an empty name cannot be described; outside the statement)", "identity strings and descriptions are valid UTF-8"},
 		Run:         runC13, Replay: replayC13, CrashIsViolation: true, MinEvals: 50,
 		QuickTimeout: 15 * time.Minute, ThoroughTimeout: 60 * time.Minute,
